@@ -14,7 +14,10 @@ import (
 
 // "Body" sorts before "_id" byte-wise: the field list must still start with `_id`.
 // "A0" too; "" is a legal (if unusual) field name: the property quantifiers do not exclude it.
-var FieldVocab = []string{"_id", "a", "b", "title", "zz", "Body", "A0", ""}
+// LongFieldName needs a two-byte length varint in the fields section.
+var LongFieldName = "long-field-name-" + strings.Repeat("n", 120)
+
+var FieldVocab = []string{"_id", "a", "b", "title", "zz", "Body", "A0", "", LongFieldName}
 
 // UnknownField is never part of a batch.
 const UnknownField = "nope"
@@ -35,7 +38,7 @@ const ffTermIdx = 6
 
 var ChunkModes = []uint32{1, 2, 3, 4, 5, 7, 1024, 1025}
 
-var posVals = []int{0, 1, 2, 5, 127, 128, 300, 16383, 16384, 1 << 21, 1<<31 - 1, 1 << 35}
+var posVals = []int{0, 1, 2, 5, 127, 128, 300, 16383, 16384, 1 << 21, 1<<31 - 1, 1 << 35, 1 << 62}
 
 // dv modes of a field within a scenario
 const (
@@ -153,6 +156,13 @@ func genField(t *rapid.T, sc *Scenario, allowed []string) Field {
 		}
 		tm := Term{T: TermVocab[idx]}
 		nl := rapid.SampledFrom([]int{0, 0, 0, 1, 1, 2, 3}).Draw(t, "nLocs")
+		if rapid.IntRange(0, 40).Draw(t, "manyLocs") == 0 {
+			// 40 locations: the byte length of the location block needs a two-byte varint
+			for li := 0; li < 40; li++ {
+				tm.Locs = append(tm.Locs, Loc{Pos: li * 1000, Start: li, End: li + 300})
+			}
+			nl = 0
+		}
 		for li := 0; li < nl; li++ {
 			l := Loc{
 				Field: rapid.SampledFrom([]string{"", "", f.Name, "a", "b", "title", "zz", "_id", "Body", "A0"}).Draw(t, "locField"),
@@ -162,7 +172,7 @@ func genField(t *rapid.T, sc *Scenario, allowed []string) Field {
 			}
 			tm.Locs = append(tm.Locs, l)
 		}
-		tm.Freq = nl + rapid.SampledFrom([]int{0, 0, 0, 1, 1, 2, 63, 64, 70, 8191, 8192}).Draw(t, "extraFreq")
+		tm.Freq = len(tm.Locs) + rapid.SampledFrom([]int{0, 0, 0, 1, 1, 2, 63, 64, 70, 8191, 8192}).Draw(t, "extraFreq")
 		if tm.Freq < 1 {
 			tm.Freq = 1
 		}
@@ -188,6 +198,9 @@ func GenBatchManyFields(t *rapid.T, sc *Scenario) Batch {
 	names := make([]string, nNames)
 	for i := range names {
 		names[i] = fmt.Sprintf("f%03d", i)
+		if i%50 == 7 {
+			names[i] += strings.Repeat("-long", 30) // > 127 bytes: two-byte name length
+		}
 	}
 	b := Batch{{}}
 	// one document defines every field (so that all ids exist), the others use a few of them
